@@ -93,6 +93,12 @@ def make_helpers(lim):
         slack = nondet(b)
         if not (_is_int(slack) and 0 <= slack < (1 << 30)):
             raise CutRangeError('mdiv slack must be an int in [0, 2^30)')
+        if getattr(lim, 'mdiv_tight', False):
+            # SEARCH mode (not justified by a lemma, never used to discharge anything): the float result is modelled as
+            # the exact ceiling (what the float expression yields except for rare one-off cases inside a bucket).  Used
+            # only to look for a counterexample that replays on the real code after the bucket over-approximation
+            # produced one that does not.
+            return -((-1000 * m) // b)
         t = [-1] + [250 << p for p in range(lim.mdiv_pmax + 1)]      # t[p+1] = 250*2^p, t[0] = -1
         lo = -1                                                        # lower end (exclusive) of the bucket of m
         w = t[1] - t[0]                                                # width of the bucket of m
@@ -126,6 +132,24 @@ def make_helpers(lim):
             v = v + (p == q) * ((1000 << q) if q >= 0 else (1000 >> -q))
         return v
 
+    def fc_await(aw):
+        # `await aw` when the awaitable completes without suspending
+        it = aw.__await__()
+        try:
+            next(it)
+        except StopIteration as e:
+            return e.value
+        raise CutRangeError('deasync: awaitable suspended')
+
+    def fc_aiter(ait):
+        # `async for x in ait` when no step suspends
+        it = ait.__aiter__()
+        while True:
+            try:
+                yield fc_await(it.__anext__())
+            except StopAsyncIteration:
+                return
+
     def fc_imax(a, b):
         # max(a, b) on two ints, without a branch: b + [a > b] * (a - b)      [lemma imax, integers]
         if not (_is_int(a) and _is_int(b)):
@@ -155,7 +179,7 @@ def make_helpers(lim):
 
     return {'__fc_rdiv': fc_rdiv, '__fc_rint': fc_rint, '__fc_ceil_mdiv': fc_ceil_mdiv,
             '__fc_ceil_log2_div': fc_ceil_log2_div, '__fc_scale': fc_scale, '__fc_ceil_div': fc_ceil_div,
-            '__fc_pow2_scale': fc_pow2_scale, '__fc_imax': fc_imax,
+            '__fc_pow2_scale': fc_pow2_scale, '__fc_imax': fc_imax, '__fc_await': fc_await, '__fc_aiter': fc_aiter,
             '__fc_CutRangeError': CutRangeError}
 
 
@@ -264,7 +288,67 @@ class _Cutter(ast.NodeTransformer):
         return node
 
     visit_FunctionDef = _visit_body
-    visit_AsyncFunctionDef = _visit_body
+
+    def visit_AsyncFunctionDef(self, node):
+        node = self._visit_body(node)
+        if 'deasync' not in self.rules:
+            return node
+        # `async def` -> `def`; `await E` -> `__fc_await(E)`; `async for` -> `for ... in __fc_aiter(E)`;
+        # `async with` is not supported (left alone => the function stays async).  The helpers drive the awaitable /
+        # async iterator synchronously and raise CutRangeError if it suspends, so the rewrite is exact whenever the
+        # harness' fakes never suspend.  Reason: CrossHair 0.0.110's opcode tracer mis-reads the value stack inside
+        # coroutine frames that contain `async for` (segfault on some expression shapes).
+        if any(isinstance(n, (ast.AsyncWith, ast.Yield, ast.YieldFrom)) for n in _own_nodes(node)):
+            return node
+        new = _DeAsync().visit(node)
+        fn = ast.FunctionDef(name=new.name, args=new.args, body=new.body, decorator_list=new.decorator_list,
+                             returns=new.returns, type_comment=None, type_params=getattr(new, 'type_params', []))
+        self.applied.append({'rule': 'deasync', 'line': node.lineno, 'before': f'async def {node.name}',
+                             'after': f'def {node.name} (await / async for driven synchronously)'})
+        return ast.copy_location(fn, node)
+
+
+def _own_nodes(fn):
+    """Nodes of `fn` excluding nested function/class bodies."""
+    stack = list(fn.body)
+    while stack:
+        n = stack.pop()
+        yield n
+        for c in ast.iter_child_nodes(n):
+            if not isinstance(c, (ast.FunctionDef, ast.AsyncFunctionDef, ast.Lambda, ast.ClassDef)):
+                stack.append(c)
+
+
+class _DeAsync(ast.NodeTransformer):
+    def __init__(self):
+        self.depth = 0
+
+    def _nested(self, node):
+        return node          # nested defs / lambdas keep their own awaits
+
+    def visit_FunctionDef(self, node):
+        return node
+
+    visit_Lambda = visit_FunctionDef
+    visit_ClassDef = visit_FunctionDef
+
+    def visit_AsyncFunctionDef(self, node):
+        if self.depth:
+            return node
+        self.depth += 1
+        self.generic_visit(node)
+        self.depth -= 1
+        return node
+
+    def visit_Await(self, node):
+        self.generic_visit(node)
+        return ast.copy_location(_call('__fc_await', node.value), node)
+
+    def visit_AsyncFor(self, node):
+        self.generic_visit(node)
+        new = ast.For(target=node.target, iter=_call('__fc_aiter', node.iter), body=node.body, orelse=node.orelse,
+                      type_comment=None)
+        return ast.copy_location(new, node)
 
 
 def _is_math(f, name):
@@ -288,7 +372,7 @@ def _div_chain(stmt):
     return stmt.targets[0].id, e.id, cs[::-1]
 
 
-ALL_RULES = ('rdiv', 'rint', 'mdiv', 'clog2', 'scale', 'cdiv', 'pow2scale', 'imax')
+ALL_RULES = ('rdiv', 'rint', 'mdiv', 'clog2', 'scale', 'cdiv', 'pow2scale', 'imax')   # 'deasync' is opt-in
 
 
 class CutResult:
@@ -626,3 +710,15 @@ def prove(R, rules, lim, timeout_s=120, workers=8, solver='z3new', second=None):
                                 'secs': round(sum(res[('s', key, i)][2] for i in range(len(alts))), 1)}
         R.ob(f'FP lemma {desc} [{key}]', 'discharged' if good else 'not_discharged', g[2], detail, nontrivial=reach)
     return ok
+
+
+def require_verdicts(res):
+    """`res` = chrun.run(...) result.  A CrossHair worker that neither confirmed, refuted, reported 'Not confirmed' /
+    'Unable to meet precondition' nor hit the hard timeout has CRASHED (import error, segfault of the tracer, ...):
+    that is a harness failure (exit 2), never a quiet not_discharged."""
+    bad = []
+    for target, (verdict, msg, _dt) in res.items():
+        if verdict == 'unknown' and not any(k in msg for k in ('Not confirmed', 'Unable to meet precondition', '[hard timeout]')):
+            bad.append(f'{target}: {msg.strip()[-200:] or "<no output: worker died>"}')
+    if bad:
+        raise HarnessError(f'{len(bad)} CrossHair worker(s) produced no verdict (crashed): ' + ' | '.join(bad[:3]))
